@@ -51,6 +51,20 @@ Script11Next ==
         [] steps = 9 -> DbReindex({})
         [] OTHER -> FALSE
 Script11Spec == InitIndexed /\ idle = 0 /\ [][Script11Next]_<<vars, idle>>
+\* Second directed scenario for C11: a note moves (cut and paste) from an indexed page onto a page the index does not know, and is
+\* edited there; both pages are processed by one reindex, the indexed one first.  The note keeps its ZID but gets no stamp: the
+\* page it lives on now had no previous index state.  (Also the other way round and between two indexed pages.)
+Script11bNext ==
+  /\ idle' = idle
+  /\ CASE steps = 0 -> \E p \in Pages : DelPage(p)
+        [] steps = 1 -> DbReindex({})
+        [] steps = 2 -> NextDay
+        [] steps = 3 -> \E p \in Pages : AddPage(p)
+        [] steps = 4 -> \E p, q \in Pages : MoveNote(p, 1, q)
+        [] steps = 5 -> \E p \in Pages : EditBody(p, 1)
+        [] steps = 6 -> DbReindex({})
+        [] OTHER -> FALSE
+Script11bSpec == InitIndexed /\ idle = 0 /\ [][Script11bNext]_<<vars, idle>>
 \* Directed scenario for the refusal / whitelist protocol (C08): a page breaks and is whitelisted with `create -f`, another
 \* page breaks (or is edited), and the next command must refuse exactly when a broken page is not whitelisted.
 AnyCmd == DbCreate(FALSE) \/ DbCreateRefused \/ DbReindex({}) \/ DbReindexRefused({})
